@@ -3,7 +3,7 @@ from __future__ import annotations
 
 import random as _random
 
-from dst.session.kernel import SeededBytes
+from dst.session.kernel import EdgeBits, SeededBytes
 
 
 class LightSeams:
@@ -30,7 +30,7 @@ class LightSeams:
                 import time as _t
                 return getattr(_t, name)
 
-        for mod, name, new in ((client, "time", _FixedTime()), (client, "random", rng), (c2, "random", rng), (utils, "random", rng),
+        for mod, name, new in ((client, "time", _FixedTime()), (client, "random", rng), (c2, "random", EdgeBits(rng)), (utils, "random", rng),
                                (cr, "get_random_bytes", SeededBytes(self.run_seed))):
             self.saved.append((mod, name, getattr(mod, name)))
             setattr(mod, name, new)
